@@ -1,4 +1,4 @@
-module spike4
+module spike5
 
 go 1.23
 
